@@ -28,6 +28,14 @@ static std::vector<Primary> event_primaries(LoopProblem const& P, unsigned e)
     v.push_back(P.primary(0, 20.0 + e, {0.2 + s, 0.1, 0.05}, {1, 0, 0}, e));
     v.push_back(P.primary(1, 8.0, {0.1, -0.2 + s, 0.3}, {0, 0.6, 0.8}, e));
     v.push_back(P.primary(2, 3.0 + e, {-0.2, 0.3, -0.1 - s}, {0.6, 0, -0.8}, e));
+    // events differ in their NUMBER of primaries (e%3 = 0: two more, 1: none, 2: one more): a
+    // stream that runs event 1 after event 0 inserts a smaller batch after a larger one - its
+    // primary buffer is a high-water mark and must not replay the tail
+    unsigned const extra = (e % 3 == 0) ? 2 : (e % 3 == 2) ? 1 : 0;
+    if (extra >= 1)
+        v.push_back(P.primary(0, 1.5, {0.2 + s, 0.1, 0.05}, {0, 1, 0}, e));
+    if (extra >= 2)
+        v.push_back(P.primary(0, 2.5, {0.2 + s, 0.1, 0.05}, {0, 0, -1}, e));
     return v;
 }
 
